@@ -27,7 +27,7 @@ theorem rm_find_other (bk : Bucket) (k k' : Key) (id : Nat) (h : k ≠ k') :
 theorem put_frame (md5 : Bytes → Bytes) (m : Mem) (b b' : Bytes) (k k' : Key) (md : Meta) (body : Bytes)
     (hne : b ≠ b' ∨ k ≠ k') :
     (m.put md5 b k md body).1.get b' k' = m.get b' k' := by
-  unfold Mem.put
+  unfold Mem.put Mem.putCommit
   cases hb : SMap.find m.buckets b with
   | none => rfl
   | some bk =>
